@@ -375,7 +375,7 @@ class Run(object):
         sobj, ssi, soff, savail, slab, sdata = s
         n = min(davail, savail)
         if n > 0:
-            n = 1 + (r // 11) % n
+            n = (1 + (r // 11) % n) if r % 17 else 0        # sometimes a zero-length move
         src_bytes = sdata[:n] if ssi is None else bytes(self.stores[ssi]['model'][soff:soff + n])
         try:
             self.ffi.memmove(dobj, sobj, n)
